@@ -19,7 +19,7 @@ SkUnchanged == UNCHANGED <<obj, hist, blob, sh>>
 \* a coupon-mode sketch of 2^lg slots becomes an HLL array at this many distinct coupons (list of 8; for lg >= 8 a set that is
 \* promoted when 4 * count > 3 * 2^(lg - 3))
 RealPromoteCount(lg) == IF lg < 8 THEN 8 ELSE 3 * 2^(lg - 5) + 1
-G == INSTANCE HllUnionMech WITH PromoteCount <- RealPromoteCount, FixedIsEmpty <- TRUE, FixedReset <- TRUE
+G == INSTANCE HllUnionMech WITH PromoteCount <- RealPromoteCount, FixedIsEmpty <- TRUE, FixedReset <- TRUE, FixedDownsampleKxq <- TRUE
 NoG == [lg |-> 0 - 1]
 GSup(x) == x.lg >= 0
 UgSet(f) == IF CheckDesign THEN f ELSE ug
@@ -35,6 +35,7 @@ GResultOK(p, t, x) == (CheckDesign /\ GSup(x) /\ p.m >= 0) =>
   /\ Chk("B:gadget-mode", p.m = IF x.hll THEN 2 ELSE IF n < 8 THEN 0 ELSE 1)
   /\ (~x.hll /\ p.m < 2) => Chk("B:gadget-coupon-count", p.cnt = n)
   /\ (~x.hll /\ p.m = 1) => Chk("B:gadget-set-lg-size", p.lg = SetLgOf(n, 5))
+  /\ (x.hll /\ p.m = 2 /\ Has(p, "ooo")) => Chk("B:gadget-out-of-order-flag", p.ooo = x.ooo)
   /\ (x.hll /\ p.m = 2) =>
        \* HLL_8 without pending rebuild is a plain copy of the gadget (stored counters); otherwise the registers are replayed:
        \* HLL_6 / HLL_8 count the zero slots, HLL_4 keeps the true minimum and its multiplicity
@@ -49,6 +50,8 @@ GResultOK(p, t, x) == (CheckDesign /\ GSup(x) /\ p.m >= 0) =>
 UScalars(e, o) == /\ Chk("union-is_empty", e.empty = o.empty)
                   /\ Chk("union-lg_k", e.lgk = U!LgStar(o))
 UBoundsOK(r, o, hllmode) ==
+  /\ Chk("C06:bound-width", (hllmode /\ r.estF > 0) =>
+          WidthOK(r, U!LgStar(o), IF o.big THEN Cardinality({p[1] % (2^U!LgStar(o)) : p \in o.fed \cup o.sp}) ELSE NonZero(o)))
   /\ Chk("C06:bounds", /\ r.lb[3] <= r.lb[2] /\ r.lb[2] <= r.lb[1] /\ r.lb[1] <= r.est
                        /\ r.est <= r.ub[1] /\ r.ub[1] <= r.ub[2] /\ r.ub[2] <= r.ub[3])
   /\ LET retained == IF ~hllmode THEN Cardinality(o.fed)
@@ -72,6 +75,16 @@ TUUpdate == IsEvent("UUpdate") /\ LET e == Log[l]  sv == obj[e.src]  o == un[e.u
           /\ GScalars(e, ug'[e.u])
 TUItem == IsEvent("UItem") /\ LET e == Log[l] IN
           /\ U!UpdateItem(e.u, <<e.c[1], e.c[2]>>) /\ UScalars(e, un'[e.u]) /\ SkUnchanged
+          \* While the union answers with its in-order (HIP) estimate, that estimate must stay consistent with the registers: an item
+          \* that raises a register adds k / KxQ of the registers BEFORE the update (KxQ = sum over slots of 2^-register), an item
+          \* that changes no register adds nothing.  e.hinc (HLL mode, lg_k <= 12) is read from get_result(HLL_8) images taken before
+          \* and after the call (no side effects): ooo flag, HIP accumulator (D tokens), and ppb = 10^9 * |observed increment -
+          \* k / KxQ(registers before)| / that increment, computed by the harness from those images (unit conversion).
+          /\ (Has(e, "hinc") /\ ~un[e.u].big) =>
+               LET h == e.hinc  o == un[e.u]  raised == o.top[e.c[1] % (2^U!LgStar(o))] < e.c[2] IN
+               (~h.ooo /\ ~h.oooAfter) =>
+                 /\ Chk("union-hip-unchanged-without-register-change", ~raised => h.hipAfter = h.hipBefore)
+                 /\ Chk("union-hip-increment-is-k/KxQ", raised => (h.hipBefore < h.hipAfter /\ h.ppb <= 1000))
           /\ ug' = UgSet([ug EXCEPT ![e.u] = IF GSup(@) THEN G!CouponUpd(@, <<e.c[1], e.c[2]>>) ELSE @]) /\ GScalars(e, ug'[e.u])
 TUItemIgnored == IsEvent("UItemIgnored") /\ LET e == Log[l] IN
           /\ U!UpdateIgnoredItem(e.u) /\ UScalars(e, un[e.u]) /\ SkUnchanged /\ UNCHANGED ug
